@@ -32,6 +32,8 @@ IMPORTS = {
     # brings `Outer` from M2 and another name from M1
     "from_twinmod_Outer": ("from twinmod import Outer", "Outer.Nested.__name__"),
     # a name imported explicitly and THEN a star import of the same module
+    # a parenthesised from-import with an inline comment inside the statement
+    "from_fxh_paren_comment": ("from fxh import (\n    Other,  # the odd one out\n    DD,\n)", "DD.__name__"),
     "from_fxh_Base_then_star": ("from fxh import Base\nfrom fxh import *", "Base.__name__"),
 }
 ANNOS = [None, None, None, "int", "str", "'Base2'", "float", None, None,
